@@ -29,6 +29,8 @@ type c32Cfg struct {
 	// in whole seconds (ages beyond it are indistinguishable to Expire).
 	ttls   []int
 	ageCap int64
+	// depth bounds (merged exploration) per tier
+	depthQ, depthT int
 }
 
 const c32Clock0 = 1000
@@ -426,16 +428,16 @@ func (in *c32Inst) Canon() string {
 
 func c32Configs(thorough bool) []c32Cfg {
 	cs := []c32Cfg{
-		{name: "tracker-shards1", shards: 1, sess: [2]c32Sess{{"u1", 1}, {"u1", 2}}},
-		{name: "tracker-shards2", shards: 2, sess: [2]c32Sess{{"u1", 1}, {"u1", 2}}},
+		{name: "tracker-shards1", shards: 1, sess: [2]c32Sess{{"u1", 1}, {"u1", 2}}, depthQ: 4, depthT: 6},
+		{name: "tracker-shards2", shards: 2, sess: [2]c32Sess{{"u1", 1}, {"u1", 2}}, depthQ: 4, depthT: 6},
 		// same session id under two uids (one shard, two session keys) + the per-session limit
-		{name: "tracker-shards2-limit1-same-sid", shards: 2, limit: 1, sess: [2]c32Sess{{"u1", 1}, {"u2", 1}}},
+		{name: "tracker-shards2-limit1-same-sid", shards: 2, limit: 1, sess: [2]c32Sess{{"u1", 1}, {"u2", 1}}, depthQ: 4, depthT: 6},
 	}
 	for i := range cs {
 		if thorough {
-			cs[i].ttls, cs[i].ageCap = []int{0, 1000, 1500}, 2 // 1500ms rounds up to 2s
+			cs[i].ttls, cs[i].ageCap = []int{0, 400, 1200}, 2 // ttl is rounded UP to whole seconds: 400ms -> 1s, 1200ms -> 2s
 		} else {
-			cs[i].ttls, cs[i].ageCap = []int{0, 1000}, 1
+			cs[i].ttls, cs[i].ageCap = []int{0, 400}, 1
 		}
 	}
 	return cs
@@ -444,14 +446,13 @@ func c32Configs(thorough bool) []c32Cfg {
 func TestVerifC32(t *testing.T) {
 	r := ev.Start(t, "C32")
 	defer r.Finish()
-	depth := ev.Pick(r, 5, 7)
 	plainDepth := ev.Pick(r, 3, 4)
 	var states, trans int64
 	outcomes := 0
 	for _, cfg := range c32Configs(r.Thorough()) {
 		cfg := cfg
 		res := mc.Run(r, mc.System{
-			Name: cfg.name, New: func() mc.Instance { return newC32Inst(cfg) }, MaxDepth: depth,
+			Name: cfg.name, New: func() mc.Instance { return newC32Inst(cfg) }, MaxDepth: ev.Pick(r, cfg.depthQ, cfg.depthT),
 			Bounds: map[string]any{"sessions": 2, "messages": 2, "shard_count": cfg.shards, "max_pending_per_session": cfg.limit, "ttl_menu_ms": cfg.ttls},
 			Note:   "merged on PendingCount + map model (delivery ages capped at the largest ttl) + dead-token kinds + last-batch token states",
 		})
